@@ -84,6 +84,10 @@ func (ex *Exec) registerIntrinsics() {
 		ex.assertObl(a[0].(*Term), ex.str(a[1]), ex.str(a[2]), a[3].(*Term))
 		return nil
 	}
+	I[T+"vAssertKF2"] = func(ex *Exec, fr *frame, a []V) V {
+		ex.assertOblN(a[0].(*Term), ex.str(a[1]), []string{ex.str(a[2]), ex.str(a[4])}, []*Term{a[3].(*Term), a[5].(*Term)})
+		return nil
+	}
 	I[T+"vReach"] = func(ex *Exec, fr *frame, a []V) V {
 		ex.hooks.reached[ex.str(a[0])] = true
 		return nil
@@ -159,6 +163,29 @@ func (ex *Exec) registerIntrinsics() {
 	I[T+"vUF2"] = func(ex *Exec, fr *frame, a []V) V {
 		x, y := a[1].(*Term), a[2].(*Term)
 		return ts.UF("uf_"+sanitize(ex.str(a[0]))+"_"+sortTag(x.Sort), x.Sort, x, y)
+	}
+	I[T+"vSel"] = func(ex *Exec, fr *frame, a []V) V {
+		s := a[0].(Slice)
+		et := a[len(a)-1].(typeArgV).T
+		idx := a[1].(*Term)
+		if s.B == nil {
+			panic(abortPath{"vSel on nil slice"})
+		}
+		if nk := numKind(et); !nk.ok {
+			// object cells (strings): build the chain over concrete positions
+			n := ex.cint(s.Len, "vSel len")
+			var res V
+			for k := int(n) - 1; k >= 0; k-- {
+				v := ex.load(ex.elemPtr(s.B, s.Off, ex.c64(int64(k)), et), et)
+				if res == nil {
+					res = v
+				} else {
+					res = ex.iteStr(ts.Eq(idx, ex.c64(int64(k))), v, res)
+				}
+			}
+			return res
+		}
+		return ex.load(ex.elemPtr(s.B, s.Off, idx, et), et)
 	}
 	I[T+"vIsNaN"] = func(ex *Exec, fr *frame, a []V) V { return ts.FIsNaN(a[0].(*Term)) }
 	I[T+"vKFOpen"] = func(ex *Exec, fr *frame, a []V) V { return ts.Bool(ex.hooks.kfOpen[ex.str(a[0])]) }
@@ -839,6 +866,8 @@ func (ex *Exec) parseLiteral(lit string, s Sort) *Term {
 
 func (ex *Exec) iteV(c *Term, a, b V) V {
 	switch x := a.(type) {
+	case StrV:
+		return ex.iteStr(c, a, b)
 	case *Term:
 		return ex.ts.Ite(c, x, b.(*Term))
 	case Cplx:
@@ -852,6 +881,17 @@ func (ex *Exec) iteV(c *Term, a, b V) V {
 		return b
 	}
 	panic(abortPath{fmt.Sprintf("vIte on %T", a)})
+}
+
+func (ex *Exec) iteStr(c *Term, a, b V) V {
+	x, y := a.(StrV), b.(StrV)
+	if c.IsConst() {
+		if c.cBool() {
+			return x
+		}
+		return y
+	}
+	return StrV{T: ex.ts.Ite(c, ex.strTerm(x), ex.strTerm(y))}
 }
 
 func (ex *Exec) sameBits(a, b V) *Term {
